@@ -242,7 +242,7 @@ func main() {
 	}
 	t0 := time.Now()
 	wdCtx, wdOut = c, *out
-	startWatchdog(10)
+	startWatchdog(30)
 	func() {
 		defer func() {
 			if p := recover(); p != nil {
